@@ -1,3 +1,407 @@
--- stub: the driver of C17 is not built yet
 import WmModel.Basic
-def main : IO Unit := Wm.driverMain (fun _ => "bad-op")
+import WmModel.Poison
+import WmModel.Relay
+open Wm Wm.Poison Wm.Relay
+
+/-!
+  Line protocol of C17 (strings hex, empty = `-`; metadata `k=v,k=v` sorted, empty = `-`; dest = ok | fail):
+
+    atoi <str>                                   →  <int> | err
+    itoa <int>                                   →  <str>
+    rq <delay> <cancelled> <ok:<topic>|err> <dest> <uuid> <payload> <meta>
+         →  P<n>[:<topic>|<uuid>|<payload>|<meta>|<sameObject>|<unsettledAtPublish>;…] A:<meta after> S:<ack|nack>
+    fwdtopic <configured>                        →  <topic the forwarder subscribes to>
+    fwd <ackWhenCannotUnwrap> <bad | e:<dest>:<uuid>:<payload>:<meta>> <dest> <class>
+         →  P<n>[:<topic>|<uuid>|<payload>|<meta>|<unsettled>;…] S:<ack|nack>
+    fpub <cfgTopic> <topic> <- | uuid|payload|meta;…> <dest>
+         →  C<n>[:<topic>|<k>|<dest>~<uuid>~<payload>~<meta>+…;…] E:<0|1> U:<fresh envelope uuids>
+    e2e <s|g> <cfgTopic> <ack> <topic> <uuid> <payload> <meta> <dest>
+         →  F:<publisher error> P<n>[…as fwd…] S:<ack|nack|->
+    faninctor <sources|-> <target>               →  ok | err
+    fanin <sources> <target> <index> <dest> <uuid> <payload> <meta>
+         →  P<n>[:<topic>|<uuid>|<payload>|<meta>|<sameObject>|<unsettled>;…] S:<ack|nack>
+    fanout <subscribers per topic> <uuid> <payload> <meta>
+         →  D<n>[:<uuid>|<payload>|<meta>;…] X:<stray deliveries> S:<ack|nack>
+-/
+
+def dropS (s : String) (n : Nat) : String := String.ofList (s.toList.drop n)
+
+def bytesLt : List UInt8 → List UInt8 → Bool
+  | [], [] => false
+  | [], _ :: _ => true
+  | _ :: _, [] => false
+  | a :: as, b :: bs => a < b || (a == b && bytesLt as bs)
+
+def insertKV (kv : Str × Str) : Meta → Meta
+  | [] => [kv]
+  | x :: rest => if bytesLt kv.1 x.1 then kv :: x :: rest else x :: insertKV kv rest
+
+def sortMeta (m : Meta) : Meta := m.foldr insertKV []
+
+def showMeta (m : Meta) : String :=
+  if m.isEmpty then "-" else
+  ",".intercalate ((sortMeta m).map (fun kv => hexEnc kv.1 ++ "=" ++ hexEnc kv.2))
+
+def parseKV (s : String) : Option (Str × Str) :=
+  match s.splitOn "=" with
+  | [k, v] => do pure ((← hexDec k), (← hexDec v))
+  | _ => none
+
+def keysNodup : List (Str × Str) → Bool
+  | [] => true
+  | kv :: rest => !(rest.any (fun x => x.1 == kv.1)) && keysNodup rest
+
+def parseMeta (s : String) : Option Meta := do
+  let m ← (if s = "-" then some [] else (s.splitOn ",").mapM parseKV)
+  if keysNodup m then some m else none
+
+def parseBit : String → Option Bool
+  | "0" => some false | "1" => some true | _ => none
+
+def parseDest : String → Option POut
+  | "ok" => some .ok | "fail" => some (.fail []) | _ => none
+
+def parseMsg (u p m : String) : Option Msg := do pure ⟨(← hexDec u), (← hexDec p), (← parseMeta m)⟩
+
+def showInt (i : Int) : String := toString i
+
+def parseInt (s : String) : Option Int := s.toInt?
+
+def look (m : Meta) (k : Str) : Option Str := List.lookup k m
+
+def metaEq (a b : Meta) : Bool :=
+  a.length == b.length && a.all (fun kv => look b kv.1 == some kv.2)
+
+def bitS (b : Bool) : String := if b then "1" else "0"
+
+def showSettle : Settle → String
+  | .ack => "ack" | .nack => "nack"
+
+/-- P<n>[:entry;…] -/
+def showEntries (pfx : String) (es : List String) : String :=
+  pfx ++ toString es.length ++ (if es.isEmpty then "" else ":" ++ ";".intercalate es)
+
+def msgFields (m : Msg) : List String := [hexEnc m.uuid, hexEnc m.payload, showMeta m.md]
+
+/-! ### observations -/
+
+structure PubObs where
+  topic : Str
+  msg : Msg
+  flags : List Bool
+
+def parsePubObs (nflags : Nat) (s : String) : Option PubObs :=
+  match s.splitOn "|" with
+  | t :: u :: p :: m :: fl => do
+    if fl.length != nflags then none
+    pure ⟨(← hexDec t), (← parseMsg u p m), (← fl.mapM parseBit)⟩
+  | _ => none
+
+/-- parse `X<n>[:a;b;…]` into its entries -/
+def parseEntries (pfx : String) (s : String) : Option (List String) :=
+  if !s.startsWith pfx then none else
+  match (dropS s pfx.length).splitOn ":" with
+  | [n] => if n.toNat? == some 0 then some [] else none
+  | [n, l] => let es := l.splitOn ";"; if n.toNat? == some es.length then some es else none
+  | _ => none
+
+def parsePubs (nflags : Nat) (s : String) : Option (List PubObs) := do
+  (← parseEntries "P" s).mapM (parsePubObs nflags)
+
+def tagged (tag : String) (s : String) : Option String :=
+  if s.startsWith tag then some (dropS s tag.length) else none
+
+/-- the message is what was relayed: same uuid, payload, metadata (as a map) -/
+def sameMsg (a b : Msg) : Bool := a.uuid == b.uuid && a.payload == b.payload && metaEq a.md b.md
+
+/-! ### requeuer -/
+
+structure RqReq where
+  waitCancelled : Bool
+  tg : TopicGen
+  dest : POut
+  msg : Msg
+
+def parseRq : List String → Option RqReq
+  | [d, c, tg, dest, u, p, m] => do
+    let d ← parseBit d
+    let c ← parseBit c
+    let tg ← (if tg = "err" then some TopicGen.err else (tagged "ok:" tg).bind (fun t => (hexDec t).map TopicGen.ok))
+    pure ⟨d && c, tg, (← parseDest dest), (← parseMsg u p m)⟩
+  | _ => none
+
+def rqModel (r : RqReq) : String :=
+  let o := requeuer r.waitCancelled r.tg r.dest r.msg
+  let es := o.pubs.map (fun p => "|".intercalate ([hexEnc p.1] ++ msgFields p.2 ++ ["1", "1"]))
+  " ".intercalate [showEntries "P" es, "A:" ++ showMeta o.msg.md, "S:" ++ showSettle o.settle]
+
+/-- the statement for the Requeuer, evaluated on the observation: relayed to the computed topic with uuid and payload
+    intact, only the retries key changed, to (atoi-or-0 of the old value) + 1 as a mathematical integer; acked only
+    after the destination accepted, nacked when it failed; never acked without an accepted publish. -/
+def rqMonitor (r : RqReq) (f : List String) : String := Id.run do
+  match f with
+  | [p, a, s] =>
+    let some pubs := parsePubs 2 p | return "bad-op"
+    let some _after := (tagged "A:" a).bind parseMeta | return "bad-op"
+    let some settle := tagged "S:" s | return "bad-op"
+    if settle != "ack" && settle != "nack" then return "violated:not_settled"
+    match r.waitCancelled, r.tg with
+    | false, .ok t =>
+      match pubs with
+      | [pb] =>
+        if pb.topic != t then return "violated:relay_topic"
+        if pb.msg.uuid != r.msg.uuid || pb.msg.payload != r.msg.payload then return "violated:relay_preserves"
+        -- only the retries key changes
+        if !(r.msg.md.all (fun kv => kv.1 == retriesKey || look pb.msg.md kv.1 == some kv.2)) then return "violated:relay_preserves_metadata"
+        if !(pb.msg.md.all (fun kv => kv.1 == retriesKey || look r.msg.md kv.1 == some kv.2)) then return "violated:relay_preserves_metadata"
+        -- raised by exactly one
+        let prior : Int := (atoi ((look r.msg.md retriesKey).getD [])).getD 0
+        if look pb.msg.md retriesKey != some (itoa (prior + 1)) then return "violated:requeuer_counter"
+        if pb.flags != [true, true] && pb.flags != [false, true] then return "violated:ack_after_destination"
+        if r.dest == .ok && settle != "ack" then return "violated:accepted_not_acked"
+        if r.dest != .ok && settle != "nack" then return "violated:nack_on_destination_failure"
+      | _ => return "violated:relayed_once"
+    | _, _ =>
+      -- no destination could be computed (or the wait was cancelled): nothing may be acked as relayed
+      if settle == "ack" then return "violated:acked_without_relay"
+      if !pubs.isEmpty then return "violated:invented_publish"
+    return "ok"
+  | _ => return "bad-op"
+
+/-! ### forwarder -/
+
+def parseParsed (s : String) : Option Parsed :=
+  if s = "bad" then some .bad else
+  match s.splitOn ":" with
+  | ["e", d, u, p, m] => do pure (.env ⟨(← hexDec d), (← hexDec u), (← hexDec p), (← parseMeta m)⟩)
+  | _ => none
+
+def fwdEntries (o : Relay.Out) : List String :=
+  o.pubs.flatMap (fun c => c.2.map (fun m => "|".intercalate ([hexEnc c.1] ++ msgFields m ++ ["1"])))
+
+def fwdModel (ack : Bool) (p : Parsed) (dest : POut) : String :=
+  let o := forwarder ack p dest
+  showEntries "P" (fwdEntries o) ++ " S:" ++ showSettle o.settle
+
+/-- the statement for the Forwarder on one consumed message whose payload parsed to `p` -/
+def fwdMonitor (ack : Bool) (p : Parsed) (dest : POut) (pobs sobs : String) : String := Id.run do
+  let some pubs := parsePubs 1 pobs | return "bad-op"
+  let some settle := tagged "S:" sobs | return "bad-op"
+  if settle != "ack" && settle != "nack" then return "violated:not_settled"
+  let validEnv : Option Envelope := match p with
+    | .bad => none
+    | .env e => if e.dest.isEmpty then none else some e
+  match validEnv with
+  | none =>
+    -- not a valid envelope: never forwarded; acked or nacked as the flag says
+    if !pubs.isEmpty then return "violated:invalid_envelope_never_forwarded"
+    if settle != (if ack then "ack" else "nack") then return "violated:invalid_envelope_settlement"
+  | some e =>
+    match pubs with
+    | [pb] =>
+      if pb.topic != e.dest then return "violated:relay_topic"
+      if !sameMsg pb.msg ⟨e.uuid, e.payload, e.md⟩ then return "violated:relay_preserves"
+      if pb.flags != [true] then return "violated:ack_after_destination"
+      if dest == .ok && settle != "ack" then return "violated:accepted_not_acked"
+      if dest != .ok && settle != "nack" then return "violated:nack_on_destination_failure"
+    | _ => return "violated:relayed_once"
+  return "ok"
+
+/-! ### forwarder.Publisher -/
+
+def parseMsgs (s : String) : Option (List Msg) :=
+  if s = "-" then some [] else
+  (s.splitOn ";").mapM (fun e => match e.splitOn "|" with
+    | [u, p, m] => parseMsg u p m
+    | _ => none)
+
+def showEnv (e : Envelope) : String := "~".intercalate [hexEnc e.dest, hexEnc e.uuid, hexEnc e.payload, showMeta e.md]
+
+def fpubModel (cfg topic : Str) (msgs : List Msg) (dest : POut) : String :=
+  let o := fwdPublish cfg topic msgs dest
+  let cs := o.calls.map (fun c => "|".intercalate [hexEnc c.1, toString c.2.length,
+    if c.2.isEmpty then "-" else "+".intercalate (c.2.map showEnv)])
+  showEntries "C" cs ++ " E:" ++ bitS o.err ++ " U:1"
+
+def parseEnvObs (s : String) : Option Envelope :=
+  match s.splitOn "~" with
+  | [d, u, p, m] => do pure ⟨(← hexDec d), (← hexDec u), (← hexDec p), (← parseMeta m)⟩
+  | _ => none
+
+/-- the statement for the Publisher: a message published through it is enveloped with the topic it was published
+    to, uuid/payload/metadata intact; success is reported only if the wrapped publisher accepted it -/
+def fpubMonitor (topic : Str) (msgs : List Msg) (dest : POut) (f : List String) : String := Id.run do
+  match f with
+  | [c, e, _u] =>
+    let some calls := parseEntries "C" c | return "bad-op"
+    let some err := (tagged "E:" e).bind parseBit | return "bad-op"
+    if err then
+      return "ok"
+    -- reported success: everything must be on its way, named correctly
+    if dest != .ok then return "violated:success_without_acceptance"
+    let mut envs : List Envelope := []
+    for call in calls do
+      match call.splitOn "|" with
+      | [_, _, es] =>
+        if es != "-" then
+          let some l := (es.splitOn "+").mapM parseEnvObs | return "violated:envelope_undecodable"
+          envs := envs ++ l
+      | _ => return "bad-op"
+    if envs.length != msgs.length then return "violated:publisher_lost_or_invented"
+    for (e, m) in envs.zip msgs do
+      if e.dest != topic then return "violated:envelope_topic"
+      if !sameMsg ⟨e.uuid, e.payload, e.md⟩ m then return "violated:relay_preserves"
+    return "ok"
+  | _ => return "bad-op"
+
+/-! ### end to end -/
+
+def e2eModel (transport : String) (cfg : Str) (ack : Bool) (topic : Str) (m : Msg) (dest : POut) : String :=
+  let o := fwdPublish cfg topic [m] .ok
+  match o.err, o.calls with
+  | false, [(_, [e])] =>
+    let r := forwarder ack (.env e) dest
+    "F:0 " ++ showEntries "P" (fwdEntries r) ++ " S:" ++ showSettle r.settle
+  | _, _ => if transport == "g" then "F:1 P0 S:ack" else "F:1 P0 S:-"
+
+def e2eMonitor (topic : Str) (m : Msg) (dest : POut) (f : List String) : String := Id.run do
+  match f with
+  | [fo, p, s] =>
+    let some ferr := (tagged "F:" fo).bind parseBit | return "bad-op"
+    let some pubs := parsePubs 1 p | return "bad-op"
+    let some settle := tagged "S:" s | return "bad-op"
+    if ferr then
+      if !pubs.isEmpty then return "violated:invented_publish"
+      return "ok"
+    -- delivered to the topic named when it was published through the Publisher
+    match pubs with
+    | [pb] =>
+      if pb.topic != topic then return "violated:forwarder_end_to_end_topic"
+      if !sameMsg pb.msg m then return "violated:forwarder_end_to_end"
+      if pb.flags != [true] then return "violated:ack_after_destination"
+      if dest == .ok && settle != "ack" then return "violated:accepted_not_acked"
+      if dest != .ok && settle != "nack" then return "violated:nack_on_destination_failure"
+    | _ => return "violated:relayed_once"
+    return "ok"
+  | _ => return "bad-op"
+
+/-! ### fan-in / fan-out -/
+
+def parseHexList (s : String) : Option (List Str) :=
+  if s = "-" then some [] else (s.splitOn ",").mapM hexDec
+
+def faninModel (c : FanInCfg) (i : Nat) (m : Msg) (dest : POut) : String :=
+  let o := fanIn c i m dest
+  let es := o.pubs.flatMap (fun c => c.2.map (fun m => "|".intercalate ([hexEnc c.1] ++ msgFields m ++ ["1", "1"])))
+  showEntries "P" es ++ " S:" ++ showSettle o.settle
+
+def faninMonitor (c : FanInCfg) (m : Msg) (dest : POut) (f : List String) : String := Id.run do
+  match f with
+  | [p, s] =>
+    let some pubs := parsePubs 2 p | return "bad-op"
+    let some settle := tagged "S:" s | return "bad-op"
+    if settle != "ack" && settle != "nack" then return "violated:not_settled"
+    match pubs with
+    | [pb] =>
+      if pb.topic != c.target then return "violated:relay_topic"
+      if !sameMsg pb.msg m then return "violated:relay_preserves"
+      if (pb.flags.drop 1) != [true] then return "violated:ack_after_destination"
+      if dest == .ok && settle != "ack" then return "violated:accepted_not_acked"
+      if dest != .ok && settle != "nack" then return "violated:nack_on_destination_failure"
+    | _ => return "violated:relayed_once"
+    return "ok"
+  | _ => return "bad-op"
+
+def fanoutModel (subs : Nat) (m : Msg) : String :=
+  showEntries "D" ((fanOutDeliveries subs m).map (fun d => "|".intercalate (msgFields d))) ++ " X:0 S:ack"
+
+def fanoutMonitor (subs : Nat) (m : Msg) (f : List String) : String := Id.run do
+  match f with
+  | [d, x, s] =>
+    let some ds := parseEntries "D" d | return "bad-op"
+    let some stray := (tagged "X:" x).bind (·.toNat?) | return "bad-op"
+    let some settle := tagged "S:" s | return "bad-op"
+    if ds.length != subs then return "violated:fanout_lost_or_invented"
+    if stray != 0 then return "violated:fanout_invented"
+    for e in ds do
+      match e.splitOn "|" with
+      | [u, p, md] =>
+        let some got := parseMsg u p md | return "bad-op"
+        if !sameMsg got m then return "violated:relay_preserves"
+      | _ => return "violated:fanout_lost_or_invented"
+    -- the internal Pub/Sub accepted the message (it never refuses while running): the consumed message is acked
+    if settle != "ack" then return "violated:accepted_not_acked"
+    return "ok"
+  | _ => return "bad-op"
+
+/-! ### dispatch -/
+
+def splitObs (rest : List String) : List String × List String :=
+  (rest.takeWhile (· != "##"), (rest.dropWhile (· != "##")).drop 1)
+
+def handleM : List String → String
+  | ["atoi", s] => match hexDec s with
+    | some s => (match atoi s with | some i => showInt i | none => "err")
+    | none => "bad-op"
+  | ["itoa", i] => match parseInt i with
+    | some i => hexEnc (itoa i)
+    | none => "bad-op"
+  | "rq" :: rest => match parseRq rest with
+    | some r => rqModel r
+    | none => "bad-op"
+  | ["fwdtopic", t] => match hexDec t with
+    | some t => hexEnc (effTopic t)
+    | none => "bad-op"
+  | ["fwd", a, e, d, _] => match parseBit a, parseParsed e, parseDest d with
+    | some a, some e, some d => fwdModel a e d
+    | _, _, _ => "bad-op"
+  | ["fpub", c, t, ms, d] => match hexDec c, hexDec t, parseMsgs ms, parseDest d with
+    | some c, some t, some ms, some d => fpubModel c t ms d
+    | _, _, _, _ => "bad-op"
+  | ["e2e", tr, c, a, t, u, p, m, d] => match hexDec c, parseBit a, hexDec t, parseMsg u p m, parseDest d with
+    | some c, some a, some t, some m, some d => if tr == "s" || tr == "g" then e2eModel tr c a t m d else "bad-op"
+    | _, _, _, _, _ => "bad-op"
+  | ["faninctor", ss, t] => match parseHexList ss, hexDec t with
+    | some ss, some t => if (FanInCfg.mk ss t).valid then "ok" else "err"
+    | _, _ => "bad-op"
+  | ["fanin", ss, t, i, d, u, p, m] => match parseHexList ss, hexDec t, i.toNat?, parseDest d, parseMsg u p m with
+    | some ss, some t, some i, some d, some m =>
+      if i < ss.length && (FanInCfg.mk ss t).valid then faninModel ⟨ss, t⟩ i m d else "bad-op"
+    | _, _, _, _, _ => "bad-op"
+  | ["fanout", n, u, p, m] => match n.toNat?, parseMsg u p m with
+    | some n, some m => fanoutModel n m
+    | _, _ => "bad-op"
+  | _ => "bad-op"
+
+def handleP (req obs : List String) : String :=
+  match req with
+  | ["atoi", _] | ["itoa", _] | ["fwdtopic", _] | ["faninctor", _, _] =>
+    -- library / construction behaviour: the statement does not speak about it; the model diff does
+    if handleM req == "bad-op" then "bad-op" else "ok"
+  | "rq" :: rest => match parseRq rest with
+    | some r => rqMonitor r obs
+    | none => "bad-op"
+  | ["fwd", a, e, d, _] => match parseBit a, parseParsed e, parseDest d, obs with
+    | some a, some e, some d, [p, s] => fwdMonitor a e d p s
+    | _, _, _, _ => "bad-op"
+  | ["fpub", c, t, ms, d] => match hexDec c, hexDec t, parseMsgs ms, parseDest d with
+    | some _, some t, some ms, some d => fpubMonitor t ms d obs
+    | _, _, _, _ => "bad-op"
+  | ["e2e", _, c, a, t, u, p, m, d] => match hexDec c, parseBit a, hexDec t, parseMsg u p m, parseDest d with
+    | some _, some _, some t, some m, some d => e2eMonitor t m d obs
+    | _, _, _, _, _ => "bad-op"
+  | ["fanin", ss, t, i, d, u, p, m] => match parseHexList ss, hexDec t, i.toNat?, parseDest d, parseMsg u p m with
+    | some ss, some t, some _, some d, some m => faninMonitor ⟨ss, t⟩ m d obs
+    | _, _, _, _, _ => "bad-op"
+  | ["fanout", n, u, p, m] => match n.toNat?, parseMsg u p m with
+    | some n, some m => fanoutMonitor n m obs
+    | _, _ => "bad-op"
+  | _ => "bad-op"
+
+def handle (line : String) : String :=
+  match line.splitOn " " with
+  | "M" :: rest => handleM rest
+  | "P" :: rest => let (req, obs) := splitObs rest; handleP req obs
+  | _ => "bad-op"
+
+def main : IO Unit := driverMain handle
